@@ -453,8 +453,11 @@ def it_next(E, st, fr, bi, it):
                 outs.append((None, Md("iter", d), s2))
             else:
                 cnt = it.d["count"]
-                one = usize(E, s2, 1)
-                d["count"] = E.binop(s2, "Add", cnt, one, usz, False)
+                if it.d.get("alias"):
+                    d["count"] = inner.d["pos"]
+                else:
+                    one = usize(E, s2, 1)
+                    d["count"] = E.binop(s2, "Add", cnt, one, usz, False)
                 outs.append((Ag((cnt, item)), Md("iter", d), s2))
         return outs
     if k == "zip":
@@ -672,7 +675,10 @@ def it_smash(E, st, it):
             d[f] = it_smash(E, st, d[f])
     if k == "enumerate":
         c = it.d["count"]
-        d["count"] = E.ctx.mk_int(st, st.lo(c), ISIZE_MAX, c.ty)
+        if it.d.get("alias"):
+            d["count"] = d["inner"].d["pos"]
+        else:
+            d["count"] = E.ctx.mk_int(st, st.lo(c), ISIZE_MAX, c.ty)
     if k == "take":
         n = it.d["n"]
         d["n"] = E.ctx.mk_int(st, 0, st.hi(n), n.ty)
@@ -730,7 +736,9 @@ def m_iter_adapt(kind):
         if kind in ("copied", "cloned"):
             return ret1(Md("iter", {"k": kind, "inner": it}), st)
         if kind == "enumerate":
-            return ret1(Md("iter", {"k": "enumerate", "inner": it, "count": usize(E, st, 0)}), st)
+            if it.d["k"] in ("slice", "range") and st.const(it.d["pos"]) == 0:
+                return ret1(Md("iter", {"k": "enumerate", "inner": it, "count": it.d["pos"], "alias": True}), st)
+            return ret1(Md("iter", {"k": "enumerate", "inner": it, "count": usize(E, st, 0), "alias": False}), st)
         if kind == "zip":
             other = args[1]
             o = deref2(E, st, other) if type(other) is Pt else other
@@ -777,6 +785,54 @@ def m_iter_next(E, st, fr, bi, callee, args, dest_ty):
         from .absint import join_states
         sa.store[("tmp", "ret")] = ra if False else UNIT
         return outs
+    return outs
+
+
+def m_range_inclusive_next(E, st, fr, bi, callee, args, dest_ty):
+    p = args[0]
+    r = deref2(E, st, p)
+    if type(r) is not Ag or len(r.f) != 3:
+        raise Unsupported("RangeInclusive shape")
+    start, end, exh = r.f
+    outs = []
+    ex = st.itv[exh.vid]
+    if ex[1] == 1:
+        s0 = st if ex[0] == 1 else st.copy()
+        outs.append((option(), s0))
+        if ex[0] == 1:
+            return outs
+    # not exhausted
+    base = st if ex[1] == 0 else st.copy()
+    if ex != (0, 0):
+        E.set_itv(base, exh.vid, 0, 0)
+    c = E.decide_cmp(base, "Lt", start, end)
+    e = E.decide_cmp(base, "Eq", start, end)
+    cases = []
+    if c is True:
+        cases = ["lt"]
+    elif e is True:
+        cases = ["eq"]
+    elif E.decide_cmp(base, "Gt", start, end) is True:
+        cases = ["gt"]
+    else:
+        cases = ["lt", "eq", "gt"]
+    for i, cs in enumerate(cases):
+        s2 = base if i == len(cases) - 1 else base.copy()
+        try:
+            if len(cases) > 1:
+                E.assume_cmp(s2, {"lt": "Lt", "eq": "Eq", "gt": "Gt"}[cs], start.vid, end.vid)
+        except Diverge:
+            continue
+        if cs == "lt":
+            one = E.ctx.const_int(s2, 1, start.ty)
+            ns = E.binop(s2, "Add", start, one, start.ty, False)
+            write_through(E, s2, p, Ag((ns, end, exh)))
+            outs.append((option(start), s2))
+        elif cs == "eq":
+            write_through(E, s2, p, Ag((start, end, E.mkbool(s2, 1))))
+            outs.append((option(start), s2))
+        else:
+            outs.append((option(), s2))
     return outs
 
 
@@ -1144,8 +1200,9 @@ def m_xof_read(E, st, fr, bi, callee, args, dest_ty):
     u8 = E.ctx.ty_by_str("u8")
     E.ctx.emit("squeeze", frame=fr, bb=bi, seq=s, st=st)
     n = st.const(s.len)
+    hook = E.ctx.hooks.get("xof_bytes")
     if n is not None and n <= 64:
-        head = {i: E.ctx.top_int(st, u8, taint=True) for i in range(n)}
+        head = {i: (E.ctx.mk_int(st, *hook(i), u8, taint=True) if hook else E.ctx.top_int(st, u8, taint=True)) for i in range(n)}
         new = Sq(E.ctx.top_int(st, u8, taint=True), s.len, head, None)
     else:
         new = Sq(E.ctx.top_int(st, u8, taint=True), s.len, None, None)
@@ -1194,6 +1251,7 @@ def build(ctx):
     # iterators
     A(r"^<.* as std::iter::IntoIterator>::into_iter$", m_identity)
     A(r"^(core|std)::iter::range::<impl std::iter::Iterator for std::ops::Range<.*>>::next$", m_iter_next)
+    A(r"^(core|std)::iter::range::<impl std::iter::Iterator for std::ops::RangeInclusive<.*>>::next$", m_range_inclusive_next)
     A(r"^<std::(slice|vec|iter)::.* as std::iter::Iterator>::next$", m_iter_next)
     A(r"^<bit_vec::Iter<.*> as std::iter::Iterator>::next$", m_iter_next)
     for k in ("map", "copied", "cloned", "enumerate", "zip", "skip", "take", "chain", "rev"):
